@@ -2516,6 +2516,12 @@ impl<T> From<NonEmptyVec<T>> for Vec<T> {
     }
 }
 
+/// Verification hook: the number of conditional-directive passes the parser makes over `tokens`.
+#[cfg(feature = "verif_hooks")]
+pub fn verif_pass_count(tokens: &[RawToken]) -> usize {
+    DirectiveTree::parse(tokens).passes().count()
+}
+
 mod directive_tree;
 
 // Tests
